@@ -95,14 +95,19 @@ def prepare(ctx, text, with_comments=False):
     p.text = text
     p.side = s
     p.tree = s.tree
-    p.ci = s.ci
-    # "any conforming ES5 parser" applies only to inputs refjs itself accepts
-    # with the same tree; otherwise self-consistency only (input_not_es5)
-    p.es5 = (not unsure) and s.ref is not None and s.cr == s.ci
+    try:
+        p.ci = s.ci
+        # "any conforming ES5 parser" applies only to inputs refjs itself accepts
+        # with the same tree; otherwise self-consistency only (input_not_es5)
+        p.es5 = (not unsure) and s.ref is not None and s.cr == s.ci
+        p.kinds = count_kinds(p.ci)
+    except RecursionError:
+        # the tree is deeper than this harness' own recursive helpers go: no verdict
+        ctx.count('skipped:resource_limit')
+        return None
     if not p.es5:
         ctx.count('input_not_es5')
     p.ntok = len(s.ref.tokens) if s.ref is not None else len(text.split())
-    p.kinds = count_kinds(p.ci)
     return p
 
 
